@@ -16,6 +16,10 @@ fn arg_val(args: &[String], name: &str, default: u64) -> u64 {
 }
 
 fn main() {
+    // multi-call: re-executed as the real `acb` front end (family determinism)
+    if std::env::var("ACB_VERIF_MULTICALL").as_deref() == Ok("acb") {
+        std::process::exit(if acb::cmd::command_main().is_ok() { 0 } else { 1 });
+    }
     let args: Vec<String> = std::env::args().collect();
     if args.len() < 2 {
         eprintln!("usage: acb_verif_harness <family> --seed N --count N");
